@@ -32,7 +32,12 @@ def run_digest(cfg, ambient, perturb):
     H = runs.history(s)
     x, w, l = s.posterior(trim_importance_weights=False)
     after = float(np.random.rand())
-    return dict(dg=digest(H), post=digest(x, w, l), logz=float(s.evidence()[0]), n_iter=len(H["beta"]),
+    import hashlib
+    rows = set()
+    for ub in H["u"]:
+        for r_ in np.ascontiguousarray(ub):
+            rows.add(hashlib.sha1(r_.tobytes()).hexdigest()[:16])
+    return dict(dg=digest(H), post=digest(x, w, l), logz=float(s.evidence()[0]), n_iter=len(H["beta"]), rows=rows,
                 reseeds=[(a, b, str(c)) for a, b, c in tap.reseeds], after=after)
 
 
@@ -75,6 +80,14 @@ def repro_case(cfg, rs_a, rs_b):
                     f"{r1['n_iter']} vs {r2['n_iter']} iterations, histories {'equal' if r1['dg'] == r2['dg'] else 'differ'}"))
     if r1["dg"] == r3["dg"]:
         bad.append(("different-seeds-same-run", f"random_state={rs_a} and {rs_b} give identical histories"))
+    # differently seeded runs must not share *any* particle (neighbouring seeds included): shared innovations in part of a run
+    r4 = run_digest(dict(cfg, random_state=rs_b + 1), ambient=11, perturb=3)
+    for (sa, ra), (sb, rb) in (((rs_a, r1), (rs_b, r3)), ((rs_a, r1), (rs_b + 1, r4)), ((rs_b, r3), (rs_b + 1, r4))):
+        shared = len(ra["rows"] & rb["rows"])
+        if shared and ra["dg"] != rb["dg"]:
+            bad.append(("different-seeds-share-particles", f"runs with random_state={sa} and {sb} have {shared} particles in common "
+                        f"(of {len(ra['rows'])} / {len(rb['rows'])} distinct ones): part of their innovations is identical"))
+            break
     # reseeds observed inside a run must carry the user's random_state
     for fn, caller, val in r1["reseeds"]:
         if "cluster.py" in caller:
@@ -277,7 +290,7 @@ def run():
     ck.require_events("seeded construct+run pairs compared bitwise", "library operations probed under 3 ambient seeds")
     return ck.finish(
         rule="(a) configurations from runs.small_cfg x random_state values: construct+run twice with the ambient stream perturbed in between, "
-             "compare sha256 of full history, posterior and evidence; a third run with random_state+1 must differ; (b) each library operation "
+             "compare sha256 of full history, posterior and evidence; runs with random_state+1 and +2 must differ and share no particle with it or with each other; (b) each library operation "
              "(mixture fits, hierarchical fit/predict, mode statistics, resampling, every pipeline step, sample/posterior/results, construction) "
              "executed under ambient seeds 101/202/303: stream state and next draw at exit must be pairwise different; non-trivial = run had > 2 iterations",
         assumptions=["seeding the global stream with the *user's* random_state (construction, checkpoint load) is the documented reproducibility mechanism, not a reset to a fixed value"],
